@@ -19,3 +19,9 @@ pub mod c18;
 pub mod c13;
 #[cfg(all(kani, feature = "c04"))]
 pub mod c04;
+#[cfg(all(kani, any(feature = "c05", feature = "c06")))]
+pub mod c05;
+#[cfg(all(kani, feature = "c06"))]
+pub mod c06;
+#[cfg(all(kani, feature = "c08"))]
+pub mod c08;
